@@ -11,7 +11,7 @@ open PromVerif.Py PromVerif.Spec.Registry
 
 theorem setTargetInfo_c2n (s : State) (l : Option Labels) :
     (setTargetInfo s l).1.collectorToNames = s.collectorToNames := by
-  simp only [setTargetInfo]
+  rw [setTargetInfo_eq]
   split
   · split <;> rfl
   · split <;> rfl
@@ -31,7 +31,7 @@ theorem keys_step (s : State) (op : Op) :
         rw [if_neg hk]; simp [this]
     · rw [register_raise h]; rfl
   | unregister c =>
-    simp only [step, unregister]
+    simp only [step, unregister_eq, unregisterOf]
     split
     · rfl
     · split
@@ -45,14 +45,14 @@ theorem ti_step (s : State) (op : Op) :
     (step s op).1.targetInfo = tiStep s.targetInfo op (step s op).2.isSome := by
   cases op with
   | register c =>
-    simp only [step, register]; split <;> rfl
+    simp only [step, register_eq, registerAtomic]; split <;> rfl
   | unregister c =>
-    simp only [step, unregister]
+    simp only [step, unregister_eq, unregisterOf]
     split
     · rfl
     · split <;> rfl
   | setTargetInfo l =>
-    simp only [step, setTargetInfo]
+    simp only [step, setTargetInfo_eq]
     split
     · split <;> rfl
     · split <;> rfl
@@ -78,7 +78,7 @@ theorem regStep_nodup {regs : List Collector} (h : regs.Nodup) (op : Op) (b : Bo
   | setTargetInfo l => cases b <;> exact h
 
 theorem init_targetInfo (ad : Bool) (ti : Option Labels) : (init ad ti).targetInfo = ti := by
-  simp only [init, setTargetInfo, truthy, dHas, List.any_nil, Bool.and_false]
+  simp only [init, setTargetInfo_eq, truthy, dHas, List.any_nil, Bool.and_false]
   split <;> rfl
 
 theorem init_c2n (ad : Bool) (ti : Option Labels) : (init ad ti).collectorToNames = [] :=
@@ -151,7 +151,7 @@ theorem selectCollectors_nodup (n2c : List (Name × Owner)) (names : List Name) 
     intro acc h
     unfold selectCollectors
     split
-    · exact ih _ (setAdd_nodup h)
+    · rw [collAdd_eq]; exact ih _ (setAdd_nodup h)
     · exact ih _ h
 
 theorem mem_selectCollectors (n2c : List (Name × Owner)) (names : List Name) (o : Owner) :
@@ -177,7 +177,7 @@ theorem mem_selectCollectors (n2c : List (Name × Owner)) (names : List Name) (o
           · exact Or.inr ⟨m, hm, h2⟩
     | some o' =>
       simp only
-      rw [ih, mem_setAdd]
+      rw [ih, collAdd_eq, mem_setAdd]
       constructor
       · rintro ((rfl | h) | ⟨m, hm, h2⟩)
         · exact Or.inr ⟨n, by simp, hg⟩
